@@ -1,13 +1,14 @@
 /-
 Interpreters of the dispatch tables that harness/translate_c20.py extracts from the LIVE source
-(Gen/C20Tables.lean): the if / elif chains at the head of `save_performance_midi`, of `Performance.__init__` and of
-`transpose`, as data.  Props/C20Gen.lean proves that interpreting the generated tables gives exactly the hand-written
+(Gen/C20Tables.lean): the if / elif chains at the head of `save_performance_midi`, of `Performance.__init__`, of
+`transpose`, of `save_score_midi`, `save_musicxml`, `Score.__init__` and `ensure_notearray`, as data.  Props/C20Gen.lean proves that interpreting the generated tables gives exactly the hand-written
 functions of Model/ArgForms.lean, for every argument — so an edit of the source that changes what a form is bound to
 re-elaborates (and breaks) those theorems.
 
 The outer `Option` of every interpreter is `none` when the table contains a token the interpreter does not know.
 -/
 import PartituraModel.Model.ArgForms
+import PartituraModel.Model.ArrayView
 
 namespace Model.ArgFormsGen
 open Model.ArgForms
@@ -79,5 +80,125 @@ def interpTargets : List (String × String) → TArg → TArg → Option (List P
   | [], _, _ => none
   | (t, tok) :: rest, a, c =>
     if t == "else" || tIs t c then tBind tok a c else interpTargets rest a c
+
+
+-- ================================================================== score-like arguments
+
+/-- `isinstance(x, cls)` for a score-like argument and the classes (and tuples of classes, written `A|B`) the tables
+    mention; `none` = unknown class.  A Score defines `__iter__` (it is an Iterable), a Part and a PartGroup do not. -/
+def scoreIs (cls : String) (a : ScoreArg) : Option Bool :=
+  let isScore := match a with | .score _ _ => true | _ => false
+  let isPart := match a with | .node (.part _) => true | _ => false
+  let isGroup := match a with | .node (.group _) => true | _ => false
+  let isList := match a with | .seq true _ => true | _ => false
+  let isTuple := match a with | .seq false _ => true | _ => false
+  if cls == "Score" then some isScore
+  else if cls == "Part" then some isPart
+  else if cls == "PartGroup" then some isGroup
+  else if cls == "Part|PartGroup" then some (isPart || isGroup)
+  else if cls == "list" then some isList
+  else if cls == "list|set|tuple" then some (isList || isTuple)
+  else if cls == "Iterable" then some (isScore || isList || isTuple)
+  else if cls == "ndarray" || cls == "Performance|PerformedPart" then some false
+  else none
+
+def scoreTest (t : String) (a : ScoreArg) : Option Bool :=
+  if t == "else" then some true
+  else if t == "not Score" then (scoreIs "Score" a).map (!·)
+  else scoreIs t a
+
+/-- what a branch binds (`save_score_midi`: `parts`; `Score.__init__`: `self.part_structure`) or hands on
+    (`ensure_notearray`) as a list of Parts / PartGroups: `some none` = the branch raises ValueError; outer `none` = a
+    token / argument combination the interpreter does not know -/
+def scoreBind (tok : String) (a : ScoreArg) : Option (Option (List Node)) :=
+  if tok == "raise" then some none
+  else if tok == "attr:parts" || tok == "list:attr:parts" then
+    match a with
+    | .score ps _ => some (some (ps.map Node.part))
+    | _ => none
+  else if tok == "singleton" then
+    match a with
+    | .node n => some (some [n])
+    | _ => none
+  else if tok == "part:self" then
+    match a with
+    | .node (.part p) => some (some [Node.part p])
+    | _ => none
+  else if tok == "list:attr:children" then
+    match a with
+    | .node (.group cs) => some (some cs)
+    | _ => none
+  else if tok == "self" || tok == "list-self" then
+    match a with
+    | .seq _ xs => some (some xs)
+    | _ => none
+  else if tok == "list:self-if-all:Part" then
+    match a with
+    | .seq _ xs => some (if xs.all (fun x => match x with | .part _ => true | .group _ => false) then some xs else none)
+    | _ => none
+  else none
+
+/-- first branch whose test holds -/
+def interpScore : List (String × String) → ScoreArg → Option (Option (List Node))
+  | [], _ => none
+  | (t, tok) :: rest, a =>
+    match scoreTest t a with
+    | some true => scoreBind tok a
+    | some false => interpScore rest a
+    | none => none
+
+/-- `Score.__init__`: `self.parts` is bound FIRST (an argument `iter_parts` rejects raises there), then the structure -/
+def interpCtor (partsTok : String) (table : List (String × String)) (a : ScoreArg) :
+    Option (Option (List Nat × List Node)) :=
+  if partsTok == "list-iter_parts:arg" then
+    match iterParts a with
+    | none => some none
+    | some ps => (interpScore table a).map (Option.map (fun st => (ps, st)))
+  else none
+
+/-- the head of `save_musicxml`: ONE `if` without else that rebinds the argument to `Score(partlist=argument)`;
+    when the test fails the argument (a Score) is used as it is -/
+def interpXml (table : List (String × String)) (a : ScoreArg) : Option (Option (List Nat × List Node)) :=
+  match table with
+  | [(t, tok)] =>
+    match scoreTest t a with
+    | some true => if tok == "ctor:Score" then some (scoreCtor a) else none
+    | some false =>
+      match a with
+      | .score ps st => some (some (ps, st))
+      | _ => none
+    | none => none
+  | _ => none
+
+-- ================================================================== array views
+
+/-- how a binding token of `slice_notearray_by_time` binds the result (Model/ArrayView.lean); a basic slice
+    (`view:arg`) or anything else is a token the interpreter does not know -/
+def selOfTok (tok : String) : Option Model.ArrayView.Sel :=
+  if tok == "np.empty" then some .empty
+  else if tok == "fancy:arg" then some .fancy
+  else if tok == "alias:arg" then some .alias
+  else none
+
+/-- the function the generated binding table denotes: `(test, token)` for the empty selection, then `else` -/
+def interpSlice {α : Type} (table : List (String × String)) :
+    Option ((α → Bool) → (α → Bool) → (α → α) → (α → α) → Bool → Model.ArrayView.Bufs α → Nat →
+      Option (Model.ArrayView.Bufs α × Nat)) :=
+  match table with
+  | [(t1, k1), (t2, k2)] =>
+    if t1 == "empty-index" && t2 == "else" then
+      match selOfTok k1, selOfTok k2 with
+      | some sE, some sS => some (Model.ArrayView.sliceGen sE sS)
+      | _, _ => none
+    else none
+  | _ => none
+
+-- ================================================================== container protocol
+
+/-- the four container methods delegate to ONE list attribute `attr` (what Model/IterProto.lean assumes: `len`,
+    indexing, assignment and every iterator look at the same list, and an iterator is the list's own iterator) -/
+def delegatesTo (attr : String) (table : List (String × String)) : Bool :=
+  table == [("__getitem__", "getitem:" ++ attr), ("__setitem__", "setitem:" ++ attr),
+            ("__iter__", "iter:" ++ attr), ("__len__", "len:" ++ attr)]
 
 end Model.ArgFormsGen
